@@ -216,3 +216,43 @@ func NameLabels() []string {
 		"xn--0", "xn--a-", "xn--zz", "XN--E1AFMKFD", "xn--", "host192", "1234",
 	}
 }
+
+// MappedNeighbours returns 16-byte addresses around the IPv4-mapped prefix
+// ::ffff:0:0/96: the mapped forms of a few IPv4 addresses and every variant
+// with one bit flipped, one byte replaced or one 16-bit group replaced in the
+// twelve prefix bytes - what a shortened or truncated prefix test would take
+// for "IPv4".
+func MappedNeighbours() [][16]byte {
+	var out [][16]byte
+	tails := [][4]byte{{1, 2, 3, 4}, {0, 0, 0, 0}, {255, 255, 255, 255}, {10, 0, 0, 1}, {127, 0, 0, 1}, {192, 168, 1, 200}}
+	for _, t := range tails {
+		var m [16]byte
+		m[10], m[11] = 0xff, 0xff
+		copy(m[12:], t[:])
+		out = append(out, m)
+		for bit := 0; bit < 96; bit++ {
+			x := m
+			x[bit/8] ^= 0x80 >> (bit % 8)
+			out = append(out, x)
+		}
+		for i := 0; i < 12; i++ {
+			for _, v := range []byte{0x00, 0x01, 0x7f, 0x80, 0xfe, 0xff} {
+				if m[i] != v {
+					x := m
+					x[i] = v
+					out = append(out, x)
+				}
+			}
+		}
+		for g := 0; g < 6; g++ {
+			for _, v := range []uint16{0x0001, 0x0100, 0xffff, 0xfffe, 0x8000, 0x1234} {
+				x := m
+				x[2*g], x[2*g+1] = byte(v>>8), byte(v)
+				if x != m {
+					out = append(out, x)
+				}
+			}
+		}
+	}
+	return out
+}
